@@ -34,10 +34,10 @@ def plan(ctx):
     return [
         ("core2brk", ["c1", "c2"], one, {"emit": 3, "msg": 1, "brk": 2, "lost": 1}),
         ("fail", ["c1"], other, {"emit": 2, "msg": 1, "brk": 1, "lost": 1, "failA": 1, "failB": 1}),
-        ("twotopics", ["c1"], two, [{"emit": 3, "msg": 0, "brk": 1, "lost": 1, "failA": 1},
+        ("twotopics", ["c1"], two, [{"emit": 3, "msg": 0, "brk": 1, "lost": 1},
                                     {"emit": 2, "msg": 1, "brk": 1, "lost": 1, "failB": 1}][s % 2]),
         ("refcount_fail", ["c1", "c2"], one, {"emit": 3, "msg": 0, "brk": 1, "lost": 1, "failB": 1}),
-        ("twotopics3", ["c1"], TWO_TOPICS[(s + 1) % len(TWO_TOPICS)], {"emit": 3, "msg": 0, "brk": 1, "lost": 1, "failA": 1}),
+        ("twotopics_failA", ["c1"], TWO_TOPICS[(s + 1) % len(TWO_TOPICS)], {"emit": 2, "msg": 0, "brk": 1, "lost": 1, "failA": 1}),
         ("core_failB", ["c1", "c2"], other, {"emit": 3, "msg": 1, "brk": 1, "lost": 1, "failB": 1}),
     ]
 
@@ -57,7 +57,8 @@ def run(ctx):
         "the server goroutine of an old stream has ended before a *clean* session is created for the node "
         "(except the one goroutine held between ack and nextEventID)",
         "message events are retained publications on one topic (they are part of the resynchronisation)",
-        "Go map iteration order (resynchronisation, unsubscribeAll) is obtained by re-running until the model's order appears",
+        "Go map iteration order (resynchronisation, unsubscribeAll) is obtained by re-running until the model's order appears; "
+        "at most one step per history depends on the order of a map with two or more entries (MaxOrd = 1)",
     ]
     fed_lib.build(ctx)
     if getattr(ctx, "replay", None):
